@@ -328,6 +328,17 @@ def run(tier):
                'observations_validated_by_tlc': obsres, 'mismatch_counts': result['mismatch_counts'],
                'aux_not_part_of_C16': result['aux'],
                'checker_cmd': 'tlc MC_ProfTree (x%d configs) -> c16 run -> tlc MC_ProfTreeObs' % len(mcs)}
+        if tier == 'thorough':
+            # the other Pyroscope read endpoints over the same stored profiles (SelectSeries, SelectMergeProfile, ProfileTypes, label
+            # endpoints, stats) are checked by the extra check X05 (ProfSeries.tla); it belongs to this property's deep tier
+            import props.x05 as x05
+            xr = x05.run('quick')
+            for v in xr['violations']:
+                viols.append(dict(v, property='C16', signature='series|' + v['signature']))
+            cov['series_x05'] = {k: xr['coverage'].get(k) for k in ('states', 'transitions', 'traces_validated_against_impl')}
+            cov['states'] += xr['coverage'].get('states', 0)
+            cov['transitions'] += xr['coverage'].get('transitions', 0)
+            cov['traces_validated_against_impl'] += xr['coverage'].get('traces_validated_against_impl', 0)
         return {'level': 'model_checking', 'coverage': cov, 'violations': viols,
                 'assumptions': ['node ids (city hash of parent id and function id, level clamped at LevelCap on top) are modelled as injective in '
                                 '(parent, function): the id is the root-first call path, hash collisions are outside the model; the level clamp is '
